@@ -57,6 +57,27 @@ RejectedEarlyOrCompleted ==
   /\ (outcome = "completed" => rules = {})
   /\ (rules # {} => stage <= 3)                       \* a violating specification never reaches a first call
 
+(* ------------------------------------------------------------ beyond C12: what a rejection says, and Model.replace *)
+\* The validation of Model(...) collects its complaints: ALL rules violated at the model stage are named in the one
+\* ModelInitilizationError, not only the first.  RuleMarker: the phrase by which the message names a rule.
+RuleMarker == [R1 |-> "Number of periods must be a positive integer",
+               R2 |-> "Utility function is not defined",
+               R3 |-> "no next state function was found",
+               R4 |-> "overlapping names"]
+\* mentions: the rules whose phrase occurs in the message of the rejecting error
+ReportComplete(rs, mentions) == \A r \in rs \cap DOMAIN RuleMarker : r \in mentions
+ReportSound(rs, mentions) == \A r \in mentions : r \in rs
+\* Model.replace(field = value): a NEW model object with the field replaced and every other field kept, validated like
+\* any model (an invalid replacement is rejected with the same error class); the original object is unchanged.
+\* obs: [orig_unchanged, new_has_value, others_kept, is_new_object, invalid_rejected_cls]
+ReplaceClause(obs) ==
+  IF ~obs.orig_unchanged THEN "replace-mutates-original"
+  ELSE IF ~obs.is_new_object THEN "replace-returns-the-same-object"
+  ELSE IF ~obs.new_has_value THEN "replace-ignored"
+  ELSE IF ~obs.others_kept THEN "replace-drops-other-fields"
+  ELSE IF obs.invalid_rejected_cls # "ModelInitilizationError" THEN "replace-skips-validation"
+  ELSE ""
+
 (* ------------------------------------------------------------ judging a recorded life cycle *)
 \* trace: sequence of [stage, ok, cls]; the first failing stage ends the trace
 LifecycleClause(rs, trace) ==
